@@ -47,11 +47,11 @@ def readPlain (s : Stream) (chunk : Bytes) : Stream :=
 def readDos2Unix (s : Stream) (chunk : Bytes) : Stream :=
   let isText := if chunk.isEmpty then false else isTextBlock (chunk.take CHUNK)
   let data := if isText then dos2unix chunk else chunk
-  { fed := s.fed ++ data, total := s.total + data.length, passed := s.passed ++ [chunk] }
+  { fed := s.fed ++ data, total := s.total + chunk.length, passed := s.passed ++ [chunk] }
 
-/-- `get_hash_stream(name)` picks the class; names are lower-cased by `HashStreamFile.__init__`
-    only *after* the class was chosen, so only the exact string selects the dos2unix variant -/
-def isDos2Unix (name : String) : Bool := name = "md5-dos2unix"
+/-- `get_hash_stream(name)` picks the class by the lower-cased name (as `HashStreamFile.__init__` lower-cases it
+    for the hasher): every case variant of the legacy name selects the dos2unix variant -/
+def isDos2Unix (name : String) : Bool := name.toLower = "md5-dos2unix"
 
 def readStep (name : String) : Stream → Bytes → Stream :=
   if isDos2Unix name then readDos2Unix else readPlain
